@@ -18,8 +18,8 @@ REPO_TESTS = common.REPO / "tests"
 
 
 def directed_cases():
-    """corners: persistent scalar used inside a clause (no dependency edge is created), scalar chains, unused inputs, a dataset
-    named like a component"""
+    """corners: persistent scalar used inside a clause (before the repair of visit_Start no dependency edge was created and the
+    scalar was released before its reader: regression cases), scalar chains, unused inputs, a dataset named like a component"""
     def ds(out, ops, pers=False, clause=None, const=1, plain=False):
         return {"out": out, "pers": pers, "kind": "ds", "ops": ops, "clause": clause, "const": const, "clause_plain": plain}
 
@@ -74,7 +74,7 @@ def corpus_items(ctx, pool):
     scripts = [s for s in T.corpus_scripts(REPO_TESTS) if s["struct_paths"] and s["dp_paths"]]
     if ctx.tier != "thorough":   # quick: a sample of the candidate files is parsed
         ctx.rng.shuffle(scripts)
-        scripts = sorted(scripts[:70], key=lambda x: x["path"])
+        scripts = sorted(scripts[:40], key=lambda x: x["path"])
     splits = pool.map([{"kind": "split", "path": s["path"]} for s in scripts])
     multi = []
     for s, sp in zip(scripts, splits):
@@ -83,7 +83,7 @@ def corpus_items(ctx, pool):
     ctx.cov["corpus_multi_statement_with_data"] = len(multi)
     if ctx.tier != "thorough":
         ctx.rng.shuffle(multi)
-        multi = multi[:24]
+        multi = multi[:12]
     items = []
     for i, s in enumerate(sorted(multi, key=lambda x: x["path"])):
         rop = bool(i % 2)
@@ -104,7 +104,7 @@ def run(ctx):
     pool = T.Pool()
     try:
         cases = T.gen_shape_cases(ctx.rng, ctx.tier)
-        cases += T.gen_decorated_cases(ctx.rng, 3000 if ctx.tier == "thorough" else 300)
+        cases += T.gen_decorated_cases(ctx.rng, 3000 if ctx.tier == "thorough" else 150)
         cases += directed_cases()
         ctx.log(f"X tie: {len(cases)} generated scripts")
         st = T.dag_tie(ctx, pool, cases, "c13dag")
@@ -124,12 +124,13 @@ def run(ctx):
             ctx.sample({"script": T.script_text(c["stmts"]), "category": c["cat"]})
 
         # ---- real traces
-        runnable = [c for c in cases if c["cat"] != "pers-scalar-clause"]
-        small = [c for c in runnable if c["cat"].startswith("shape") and c["shape"][0] <= 3]
-        rest = [c for c in runnable if not (c["cat"].startswith("shape") and c["shape"][0] <= 3)]
+        runnable = list(cases)
+        directed = {id(c) for c in cases if not c["cat"].startswith("shape") and c["cat"] != "decorated"}
+        small = [c for c in runnable if (c["cat"].startswith("shape") and c["shape"][0] <= 3) or id(c) in directed]
+        rest = [c for c in runnable if not ((c["cat"].startswith("shape") and c["shape"][0] <= 3) or id(c) in directed)]
         ctx.rng.shuffle(rest)
-        budget = 8000 if ctx.tier == "thorough" else 260
-        chosen = small + [c for c in rest if not c["cat"].startswith("shape")][:(2000 if ctx.tier == "thorough" else 60)]
+        budget = 8000 if ctx.tier == "thorough" else 170
+        chosen = small + [c for c in rest if not c["cat"].startswith("shape")][:(2000 if ctx.tier == "thorough" else 40)]
         chosen += [c for c in rest if c["cat"].startswith("shape")][:max(0, budget - len(chosen))]
         rops = [bool(i % 2) for i in range(len(chosen))]
         items = run_items(ctx, chosen, rops)
@@ -139,28 +140,6 @@ def run(ctx):
         report_trace(ctx, tr, "generated traces")
         ctx.log(f"trace tie: {tr['ok']}/{tr['runs']} runs ok, errors {tr['errors']}, model mismatches {len(tr['model_mismatch'])}, "
                 f"predicate failures {len(tr['predicate_failures'])}, result mismatches {len(tr['result_mismatch'])}")
-
-        # ---- the corner where the DAG misses a dependency: evaluate the predicates on the real trace of the failing run
-        corner = [c for c in cases if c["cat"] == "pers-scalar-clause"]
-        citems = run_items(ctx, corner, [False] * len(corner))
-        cobs = pool.map([it["job"] for it in citems], chunk=1)
-        for it, o in zip(citems, cobs):
-            ctx.count(("corner", it["label"]))
-            if o.get("ok"):
-                continue
-            trace = T.normalise_trace(o.get("events", []))
-            c = it["case"]
-            order = [n for k, n, _ in trace if k == "exec"]
-            stmts = [(n, it["reads"][n], next(s["pers"] for s in c["canon"] if s["out"] == n)) for n in order]
-            fails = [f for f in T.trace_predicates(trace, stmts, set(it["tabled"]), False, None)
-                     if "not in the store" in f or "released before" in f]
-            if fails:
-                ctx.violation("persistent-scalar-in-clause:released-before-reader",
-                              f"a scalar assigned with <- and used inside a clause is released before its reader runs: {fails[:2]}; "
-                              f"run() ends with {o.get('err')} — script {it['label']!r}",
-                              {"script": it["label"], "job": it["job"], "rop": False, "trace": trace, "failures": fails, "error": o.get("err")})
-            else:
-                ctx.oblige("corner persistent-scalar-in-clause classified", False, f"{it['label']!r}: {o.get('err')} trace {trace}")
 
         # ---- corpus traces
         items = corpus_items(ctx, pool)
